@@ -48,7 +48,7 @@ def script(ctx, k=4, limit=1, first=(), ops=None, sym_limit=False):
     tr = MemTransport()
     proto.transport = tr
     if sym_limit:
-        limit = ctx.int("limit", 1, 3)
+        limit = ctx.int("limit", 0, 3)
     sr = StreamReader(proto, limit, loop=loop)
     low, high = sr._low_water, sr._high_water
 
@@ -292,6 +292,10 @@ def jobs(tier):
                                                                   ops=["feed1", "feed2", "eof", "read1", "readany", "readline", "begin", "end", "readchunk"]),
                     limits=lim))
     out.append(dict(name="symlimit-k3", func="script", params=dict(k=3, sym_limit=True), limits=lim))
+    # degenerate read_bufsize=0: every byte is above the high-water mark and no size is below the low one
+    out.append(dict(name="limit0-k4", func="script", params=dict(k=4, limit=0,
+                                                                  ops=["feed1", "feed2", "eof", "read1", "readany", "readline", "begin", "end", "readchunk"]),
+                    limits=lim))
     return out
 
 
@@ -304,5 +308,5 @@ REQUIRED_OUTCOMES = ("eof", "open", "open:blocked", "wm")
 
 def bounds(tier):
     return {"script_length": "4 (quick) / 5 (thorough) over 21 operations, all scripts; chunk conversations: prefix begin,feed + 3-4 (quick) / 4-5 more ops over 8 operations",
-            "data": "feed_data of 0/1/2/5 fully symbolic bytes", "limit": "1 (all scripts), 2 (k=4, 9 ops), symbolic 1..3 (k=3); water-mark lemma for every limit in 1..2**40",
+            "data": "feed_data of 0/1/2/5 fully symbolic bytes", "limit": "1 (all scripts), 2 and 0 (k=4, 9 ops), symbolic 0..3 (k=3); water-mark lemma for every limit in 1..2**40",
             "reads": "read(1) read(2) read(-1) readany readline readexactly(2) readchunk read_nowait(1) read_nowait(-1); one step of iter_chunks / iter_any / iter_chunked(2) / async-for lines on a persistent iterator"}
